@@ -161,6 +161,31 @@ def check(an, rep, tier):
                            {'Y': specs.build('tt2q', 'Y', d), 'q': INT(2)})
         st, detail = tt_wellformed(r, [Poly.const(4)] * d)
         rep.add('S-ret', 'act_one.qtt_to_tt', 'q=2, d=%d' % d, st, detail)
+    # --- the index maps answer a batch with a batch and a single index with a
+    # single index, on EVERY return path (the number of rows is symbolic, so a
+    # return that depends on it is seen for m = 1 as well)
+    from ..engine import Analysis as _A
+    for q_, par, width in (('grid.ind_tt_to_qtt', 'I', lambda d: 3 * d),
+                           ('grid.ind_qtt_to_tt', 'I_qtt', lambda d: d)):
+        for vi, v in enumerate(specs.variants(q_)):
+            for d in (2, 3):
+                r = an.run(q_, vi, d)
+                many = '[m,' in str(v.get(par))
+                for j, rv in enumerate(r.returns):
+                    ok = rv.k == 'arr' and rv.dims is not None and \
+                        len(rv.dims) == (2 if many else 1)
+                    bad = rv.k == 'arr' and rv.dims is not None and not ok
+                    rep.add('S-ret', q_, 'return path %d of %s: %s in, %s out'
+                            % (j, r.tag(), 'batch' if many else 'single index',
+                               'batch' if many else 'single index'),
+                            'ok' if ok else ('violation' if bad else
+                                             'unknown'),
+                            '' if ok else 'this return path yields %r for a '
+                            '%s argument (%s)' % (
+                                rv, '2-D' if many else '1-D',
+                                'a batch must stay a batch, also a batch of '
+                                'one row' if many else 'a single index must '
+                                'give a single index'))
     # --- S-pair
     f1 = prog.func('grid.ind_tt_to_qtt')
     f2 = prog.func('grid.ind_qtt_to_tt')
